@@ -331,8 +331,13 @@ class Lifecycle(core.Scenario):
         w.run()
         pr = w.server.pending_reqs('GET')
         if pr:
+            n_before = len(w.server.reqs)
             w.answer(pr[-1], 200, '0' + json.dumps(dict(OPEN, sid='S2')))
             w.run()
+            w.run_until(w.now + 0.5)
+            stale = [(r.method, r.body) for r in w.server.reqs[n_before:] if r.method == 'POST']
+            if stale:
+                self.flag('stale_traffic_after_reconnect', 'the fresh connection POSTed %r although the application sent nothing' % (stale,), trigger=trig)
             pr = w.server.pending_reqs('GET')
             if pr:
                 w.answer(pr[-1], 200, '1')
